@@ -13,26 +13,26 @@
 import NmfuModel.Tree
 namespace Nmfu
 
-variable {A Q : Type} [DecidableEq A] [DecidableEq Q]
+variable {S T A Q : Type} [DecidableEq A] [DecidableEq Q] [DecidableEq S] [DecidableEq T]
 
-structure PS (A Q : Type) where
-  a : Option Nat
-  b : Option Nat
+structure PS (S T A Q : Type) where
+  a : Option S
+  b : Option T
   lag : List (Ev A Q)
   aLeads : Bool
   deriving DecidableEq, Repr, Hashable
 
-instance : Inhabited (PS A Q) := ⟨⟨none, none, [], false⟩⟩
+instance : Inhabited (PS S T A Q) := ⟨⟨none, none, [], false⟩⟩
 
 /-- The trailing side performs the lag first; result: what is left of its tree. -/
-def sync : List (Ev A Q) → Tree A Q Leaf → Option (Tree A Q Leaf)
+def sync {L : Type} : List (Ev A Q) → Tree A Q L → Option (Tree A Q L)
   | [], t => some t
   | .act a' :: es, .emit a k => if a' = a then sync es k else none
   | .asked q' v :: es, .ask q kt kf => if q' = q then sync es (if v then kt else kf) else none
   | _ :: _, _ => none
 
 /-- Joint walk of two trees from a common history. -/
-def joint : Tree A Q Leaf → Tree A Q Leaf → Option (List (PS A Q))
+def joint : Tree A Q (Leaf S) → Tree A Q (Leaf T) → Option (List (PS S T A Q))
   | .emit a k, .emit a' k' => if a = a' then joint k k' else none
   | .ask q kt kf, .ask q' kt' kf' =>
       if q = q' then
@@ -47,7 +47,7 @@ def joint : Tree A Q Leaf → Tree A Q Leaf → Option (List (PS A Q))
   | .ask _ _ _, .emit _ _ => none
 
 /-- One step of the product on symbol `x`; `none` = mismatch. -/
-def stepCheck (M N : SM A Q) (p : PS A Q) (x : Nat) : Option (List (PS A Q)) :=
+def stepCheck (M : SM S A Q) (N : SM T A Q) (p : PS S T A Q) (x : Nat) : Option (List (PS S T A Q)) :=
   let tA := M.tree p.a x
   let tB := N.tree p.b x
   if p.aLeads then
@@ -59,21 +59,17 @@ def stepCheck (M N : SM A Q) (p : PS A Q) (x : Nat) : Option (List (PS A Q)) :=
     | none => none
     | some tA' => joint tA' tB
 
-def initPS (M N : SM A Q) : PS A Q := ⟨some M.start, some N.start, [], false⟩
+def initPS (M : SM S A Q) (N : SM T A Q) : PS S T A Q := ⟨some M.start, some N.start, [], false⟩
 
 /-- The certificate check: `V` contains the initial product state and is closed under every
     symbol below `nsym`, with no mismatch. -/
-def certOK (M N : SM A Q) (nsym : Nat) (V : List (PS A Q)) : Bool :=
+def certOK (M : SM S A Q) (N : SM T A Q) (nsym : Nat) (V : List (PS S T A Q)) : Bool :=
   V.contains (initPS M N) &&
   V.all fun p => (List.range nsym).all fun x =>
     match stepCheck M N p x with
     | none => false
     | some succs => succs.all fun p' => V.contains p'
 
-inductive Verdict (A Q : Type) where
-  | closed (visited : Nat)
-  | mismatch (trace : List Nat) (at_ : PS A Q) (sym : Nat)
-  | fuel
-  deriving Repr
+
 
 end Nmfu
